@@ -65,6 +65,9 @@ def _start_monitor():
         pass
 
 
+REL_SLACK = 1e-9
+
+
 def run_case(args):
     """worker: explore one case symbolically, solve its claims, replay counterexamples."""
     cid, tier, seed, idx = args
@@ -81,6 +84,7 @@ def run_case(args):
     outcomes = {}
     nreplays = 0
     unknown_probes = 0
+    unreplayed = []
     from fractions import Fraction
     import signal
 
@@ -188,6 +192,7 @@ def run_case(args):
                     elif nreplays >= case.max_replays:
                         rec['verdict'] = 'sat-unreplayed'
                         rec['why'] = 'replay cap for this case reached (earlier counterexamples of the case were replayed)'
+                        unreplayed.append((rec, cl))
                     else:
                         nreplays += 1
                         # try for a well separated witness first
@@ -226,7 +231,37 @@ def run_case(args):
                             rec['verdict'] = 'violation'    # witness twins only need the sat
                         else:
                             rec['verdict'] = 'unreproduced'
+                            if cl.kind == 'eq':
+                                # the exact-real model and the float code can differ by the rounding of a float CONSTANT
+                                # (math.sqrt(8), 1./3): a counterexample that the real code does not reproduce is re-posed
+                                # with a relative slack far below the replay tolerance; only if even that is refuted does the
+                                # claim count as decided - and it is reported as such
+                                rtext, _ = engine.claim_query(cl, rel=REL_SLACK)
+                                rr, _, rs, _ = smt.solve(rtext, min(case.timeout, 60), want_model=False)
+                                rec['relative_slack_query'] = rr
+                                if rr == 'unsat':
+                                    rec['verdict'] = 'unsat'
+                                    rec['solver'] = 'z3'
+                                    rec['decided_up_to_relative'] = REL_SLACK
+                                    rec['why'] = ('exact equality has a non-reproducing counterexample (float constant); '
+                                                  'holds for every input up to relative %g' % REL_SLACK)
                 recs.append(rec)
+        # counterexamples left unreplayed because of the replay cap only ride on a reproduced violation of the same
+        # case; when none of the replayed ones reproduced they must not be dropped silently
+        if unreplayed and not any(r_['verdict'] == 'violation' for r_ in recs):
+            for rec_, cl_ in unreplayed:
+                rec_['verdict'] = 'unreproduced'
+                rec_['why'] = 'counterexample not replayed (cap) and no counterexample of this case reproduced'
+                if cl_.kind == 'eq':
+                    rtext, _ = engine.claim_query(cl_, rel=REL_SLACK)
+                    rr, _, rs, _ = smt.solve(rtext, min(case.timeout, 60), want_model=False)
+                    rec_['relative_slack_query'] = rr
+                    if rr == 'unsat':
+                        rec_['verdict'] = 'unsat'
+                        rec_['solver'] = 'z3'
+                        rec_['decided_up_to_relative'] = REL_SLACK
+                        rec_['why'] = ('exact equality has a non-reproducing counterexample (float constant); '
+                                       'holds for every input up to relative %g' % REL_SLACK)
     except CaseTimeout:
         recs.append(dict(case=case.name, label='<case>', verdict='inconclusive',
                          why='case wall-clock budget (%ds) exceeded during symbolic execution / solving' % budget))
@@ -454,6 +489,7 @@ def write_evidence(cid, tier, seed, mod, cases, results, recs, counts, violation
         queries_violation=counts.get('violation', 0),
         queries_inconclusive=counts.get('inconclusive', 0),
         queries_unreproduced=counts.get('unreproduced', 0),
+        queries_decided_up_to_relative_1e_9=sum(1 for r in recs if r.get('decided_up_to_relative')),
         solver_time_s=round(sum(r.get('seconds', 0) or 0 for r in recs), 2),
         cross_checked_with_cvc5=sum(1 for r in recs if 'cvc5' in r),
         cvc5_disagreements=sum(1 for r in recs if r.get('cvc5') == 'sat'),
